@@ -103,6 +103,7 @@ namespace vu
    using r_padopt = I::pad_opt< P1, P2 >;
    using r_state = I::state< St, P1 >;
    using r_state2 = I::state< St, P1, P2 >;
+   using r_state_d = I::state< St2, P1 >;   // default-constructed state
    using r_action = I::action< nothing, P1 >;
    using r_action2 = I::action< nothing, P1, P2 >;
    using r_control = I::control< normal, P1 >;
@@ -194,6 +195,8 @@ namespace vu
 
    // ---- action classes with their own match() (reached through normal<Rule>::match) ----
    struct R_cs : P1 {};     // change_state
+   struct R_cs_d : P1 {};   // change_state, default-constructed state
+   struct R_cas_d : P1 {};  // change_action_and_state, default-constructed state
    struct R_css : P1 {};    // change_states
    struct R_ca : P1 {};     // change_action
    struct R_cas : P1 {};    // change_action_and_state
@@ -216,6 +219,8 @@ namespace vu
    template< typename R > struct act2 : nothing< R > {};
    template< typename R > struct act : nothing< R > {};
    template<> struct act< R_cs > : change_state< St > {};
+   template<> struct act< R_cs_d > : change_state< St2 > {};
+   template<> struct act< R_cas_d > : change_action_and_state< act2, St2 > {};
    template<> struct act< R_css > : change_states< St, St2 > { template< typename I, typename... S > static void success( const I&, S&&... ); };
    template<> struct act< R_ca > : change_action< act2 > {};
    template<> struct act< R_cas > : change_action_and_state< act2, St > {};
@@ -282,7 +287,7 @@ namespace vu
       U4( r_must1 ) U4( r_must2 ) U4( r_ifmust_f ) U4( r_ifmust_f3 ) U4( r_ifmust_t ) U4( r_ifmust_t3 ) U4( r_ifmustelse )
       U4( r_raise ) U4( r_starmust ) U4( r_list ) U4( r_listmust ) U4( r_listtail ) U4( r_listtailpad )
       U4( r_minus ) U4( r_pad ) U4( r_padopt )
-      U4( r_state ) U4( r_state2 ) U4S( r_state ) U4( r_action ) U4( r_action2 ) U4( r_control ) U4( r_control2 )
+      U4( r_state ) U4( r_state2 ) U4S( r_state ) U4( r_state_d ) U4S( r_state_d ) U4( r_action ) U4( r_action2 ) U4( r_control ) U4( r_control2 )
       U4( r_enable ) U4( r_enable2 ) U4( r_disable ) U4( r_disable2 )
       U4( r_ifthen ) U4( r_ifthen2 ) U4( r_ifthen3 ) U4( r_sepseq )
       U4( r_apply ) U4( r_apply0 ) U4( r_ifapply ) U4( r_ifapply0 ) U4S( r_apply ) U4S( r_apply0 ) U4S( r_ifapply )
@@ -330,6 +335,10 @@ namespace vu
       // action classes with match()
       r = use4< R_cs, act >( in ) && r;
       r = use4< R_cs, act >( in, st ) && r;
+      r = use4< R_cs_d, act >( in ) && r;
+      r = use4< R_cs_d, act >( in, st ) && r;
+      r = use4< R_cas_d, act >( in ) && r;
+      r = use4< R_cas_d, act >( in, st ) && r;
       r = use4< R_css, act >( in ) && r;
       r = use4< R_css, act >( in, st ) && r;
       r = use4< R_ca, act >( in ) && r;
